@@ -55,4 +55,5 @@ def main : IO Unit := do
   let stdin ← IO.getStdin
   let stdout ← IO.getStdout
   loop stdin stdout { threshold := Cst.SourceFacts.childrenCacheThreshold,
-                      cmp := Cst.SourceFacts.nodeCacheComparesChildren }
+                      cmp := Cst.SourceFacts.nodeCacheComparesChildren,
+                      dbgWindow := (Cst.SourceFacts.debugAbbrevThreshold, Cst.SourceFacts.debugWindowLo, Cst.SourceFacts.debugWindowHi) }
